@@ -5,6 +5,8 @@ import WacProofs.Lemmas.GraphInvPkg
 import WacProofs.Lemmas.GraphInvUnexport
 import WacProofs.Lemmas.GraphInvUnsetArg
 import WacProofs.Lemmas.GraphInvDefine2
+import WacProofs.Lemmas.GraphInvRemove2
+import WacProofs.Lemmas.GraphInvUnreg4
 /-
   C06 — the graph API stays consistent over every operation history.
 
@@ -143,26 +145,15 @@ theorem double_removal_repaired :
     (run ctxW {} histDoubleRemove).1.nodeIds = [] ∧ Inv ctxW (run ctxW {} histDoubleRemove).1 := by
   decide
 
-/-! ### the invariant is preserved by every call (induction step over histories)
+/-! ### the invariant is preserved by every call (induction step over histories) -/
 
-  Full statement (DESIGN §7):
-    `inv_step : Inv ctx g → step ctx g op = (g', out) → out.isPanic = false → Inv ctx g'` for every `op`.
-  Proved below for every operation except `remove_node` and `unregister_package` (the two
-  cascading removals): `inv_step_partial`.  For these two the invariant is monitored on every
-  run on the implementation's reported state (driver, SPEC) and checked by `decide` on the
-  concrete histories of the `*_repaired` theorems. -/
-
-/-- operations covered by `inv_step_partial` -/
-def nonCascading : Op → Bool
-  | .removeNode _ | .unregister _ => false
-  | _ => true
-
-theorem inv_step_partial (ctx : Ctx) (g g' : Graph) (op : Op) (out : Outcome)
-    (h : Inv ctx g) (hop : nonCascading op = true) (hs : step ctx g op = (g', out)) : Inv ctx g' := by
+/-- every call that does not panic keeps the graph consistent -/
+theorem inv_step (ctx : Ctx) (g g' : Graph) (op : Op) (out : Outcome)
+    (h : Inv ctx g) (hs : step ctx g op = (g', out)) (hp : out.isPanic = false) : Inv ctx g' := by
   unfold step stepWith at hs
   cases op with
   | register d => exact inv_registerPackage h hs
-  | unregister id => simp [nonCascading] at hop
+  | unregister id => exact inv_unregisterPackage h hs hp
   | defineType name ty => exact inv_defineType h hs
   | importItem name kind => exact inv_importItem h hs
   | instantiate id => exact inv_instantiate h hs
@@ -171,23 +162,94 @@ theorem inv_step_partial (ctx : Ctx) (g g' : Graph) (op : Op) (out : Outcome)
   | unsetArg inst name arg => exact inv_unsetArg h hs
   | exportNode n name => exact inv_exportNode h hs
   | unexport n => exact inv_unexport h hs
-  | setName n name =>
-    cases ho : out with
-    | panic s =>
-      -- a panicking `set_node_name` leaves the state untouched in the model
-      simp only at hs
-      unfold setNodeName at hs
-      split at hs
-      · simp only [Prod.mk.injEq] at hs; rw [← hs.1]; exact h
-      · simp only [Prod.mk.injEq] at hs; rw [ho] at hs; cases hs.2
-    | ok v => exact inv_setNodeName h hs (by rw [ho]; rfl)
-    | err e => exact inv_setNodeName h hs (by rw [ho]; rfl)
-  | removeNode n => simp [nonCascading] at hop
+  | setName n name => exact inv_setNodeName h hs hp
+  | removeNode n => exact inv_removeNode h hs
 
--- non-vacuity: a history that uses every covered operation keeps `Inv`
-example : Inv ctxW (run ctxW {} [.register pkgW, .instantiate ⟨0, 0⟩, .instantiate ⟨0, 0⟩, .alias 0 ['a'],
+/-- … also a panicking call: in the model a panic leaves the state it was applied to -/
+theorem inv_step_any (ctx : Ctx) (g g' : Graph) (op : Op) (out : Outcome)
+    (h : Inv ctx g) (hs : step ctx g op = (g', out)) (hpanic : out.isPanic = true → g' = g) : Inv ctx g' := by
+  cases hp : out.isPanic with
+  | false => exact inv_step ctx g g' op out h hs hp
+  | true => rw [hpanic hp]; exact h
+
+/-- the state reached by any history from any consistent state is consistent, as long as the
+    history did not end in a panic -/
+theorem inv_run (ctx : Ctx) : ∀ (ops : List Op) (g : Graph), Inv ctx g →
+    (∀ o ∈ (run ctx g ops).2, o.isPanic = false) → Inv ctx (run ctx g ops).1
+  | [], _, h, _ => h
+  | op :: ops, g, h, hnp => by
+    unfold run runWith at hnp ⊢
+    cases hst : stepWith .fixed ctx g op with
+    | mk g1 out =>
+      rw [hst] at hnp
+      simp only at hnp ⊢
+      cases out with
+      | panic s =>
+        exact absurd (hnp (.panic s) (by simp)) (by simp [Outcome.isPanic])
+      | ok v =>
+        simp only at hnp ⊢
+        have h1 : Inv ctx g1 := inv_step ctx g g1 op (.ok v) h hst rfl
+        exact inv_run ctx ops g1 h1 (fun o ho => hnp o (List.mem_cons_of_mem _ ho))
+      | err e =>
+        simp only at hnp ⊢
+        have h1 : Inv ctx g1 := inv_step ctx g g1 op (.err e) h hst rfl
+        exact inv_run ctx ops g1 h1 (fun o ho => hnp o (List.mem_cons_of_mem _ ho))
+
+/-- C06, first half: after ANY sequence of graph operations from the empty graph that did not
+    panic, the graph is consistent (all the bookkeeping of `Inv`) -/
+theorem inv_reachable (ctx : Ctx) (ops : List Op) (hnp : ∀ o ∈ (run ctx {} ops).2, o.isPanic = false) :
+    Inv ctx (run ctx {} ops).1 :=
+  inv_run ctx ops {} (inv_init ctx) hnp
+
+-- non-vacuity: a history that uses every operation, with removal and re-creation
+example : (∀ o ∈ (run ctxW {} [.register pkgW, .instantiate ⟨0, 0⟩, .instantiate ⟨0, 0⟩, .alias 0 ['a'],
     .setArg 1 ['a'] 2, .exportNode 2 ['x'], .setName 2 ['n'], .importItem ['i'] 0, .defineType ['t'] 1,
-    .defineType ['u'] 0, .unsetArg 1 ['a'] 2, .unexport 2]).1 := by decide
+    .defineType ['u'] 0, .unsetArg 1 ['a'] 2, .unexport 2, .setArg 1 ['a'] 2, .removeNode 0, .removeNode 4,
+    .instantiate ⟨0, 0⟩, .unregister ⟨0, 0⟩, .register pkgW]).2, o.isPanic = false) := by decide
+
+/-! ### removal leaves no trace -/
+
+/-- `remove_node n`: afterwards the slot is vacant, no edge mentions it, none of the maps
+    refers to it, and the arguments it supplied are unsatisfied again (all of this is `Inv` of
+    the new state plus vacancy of `n`); nothing new appeared -/
+theorem remove_no_trace (ctx : Ctx) (g g' : Graph) (n : Nat) (h : Inv ctx g)
+    (hs : step ctx g (.removeNode n) = (g', .ok .unit)) :
+    Inv ctx g' ∧ g'.node? n = none ∧
+    (∀ e ∈ g'.edges, e ∈ g.edges ∧ e.src ≠ n ∧ e.dst ≠ n) ∧
+    (∀ e ∈ g'.imports, e.2 ≠ n) ∧ (∀ e ∈ g'.exports, e.2 ≠ n) ∧ (∀ e ∈ g'.defined, e.2 ≠ n) ∧
+    (∀ m x, g'.node? m = some x → ∀ i ∈ x.sat, ∃ e ∈ g'.edges, e.dst = m ∧ e.kind = .arg i ∧ e.src ≠ n) := by
+  have hinv := inv_step ctx g g' (.removeNode n) (.ok .unit) h hs rfl
+  obtain ⟨hgone, hsh⟩ := removeNode_gone h (by simpa [step, stepWith] using hs)
+  -- in a consistent graph nothing refers to a vacant slot
+  have hedge : ∀ e ∈ g'.edges, e.src ≠ n ∧ e.dst ≠ n := by
+    intro e he
+    obtain ⟨⟨s, hs'⟩, ⟨d, hd'⟩⟩ := hinv.edge_live he
+    refine ⟨fun e' => ?_, fun e' => ?_⟩
+    · rw [e', hgone] at hs'; cases hs'
+    · rw [e', hgone] at hd'; cases hd'
+  refine ⟨hinv, hgone, fun e he => ⟨hsh.1 e he, hedge e he⟩, ?_, ?_, ?_, ?_⟩
+  · intro e he e'
+    obtain ⟨x, hx, _⟩ := hinv.importsLive' e he
+    rw [e', hgone] at hx; cases hx
+  · intro e he e'
+    obtain ⟨x, hx, _⟩ := hinv.exportsLive' e he
+    rw [e', hgone] at hx; cases hx
+  · intro e he e'
+    obtain ⟨x, hx, _⟩ := hinv.definedLive' e he
+    rw [e', hgone] at hx; cases hx
+  · intro m x hx i hi
+    have hn := hinv.node hx
+    have h2 := hn.2.1
+    cases hk : x.kind with
+    | instantiation sat =>
+      rw [hk] at h2
+      simp only at h2
+      have : i ∈ sat := by simpa [Node.sat, hk] using hi
+      obtain ⟨e, he, hd, hkk⟩ := h2.2.1 i this
+      exact ⟨e, he, hd, hkk, (hedge e he).1⟩
+    | definition ty => simp [Node.sat, hk] at hi
+    | «import» nm => simp [Node.sat, hk] at hi
+    | alias => simp [Node.sat, hk] at hi
 
 /-! ### stale package identifiers -/
 
